@@ -3,7 +3,7 @@
 # property it breaks (quick tier, seed 1), reverts, and writes seeded/MATRIX.txt. /repo must be clean and nothing
 # else may be using it meanwhile.
 cd "$(dirname "$(readlink -f "$0")")/.."
-IDS="$@"; [ -z "$IDS" ] && IDS=$(ls seeded | grep '^C[0-9][0-9]b\?$')
+IDS="$@"; [ -z "$IDS" ] && IDS=$(ls seeded | grep '^C[0-9][0-9][a-z]\?$')
 OUT=seeded/MATRIX.txt
 [ $# -eq 0 ] && : > $OUT
 for id in $IDS; do
